@@ -117,7 +117,7 @@ def run(ctx):
     corr_expr, corr_exp, corr_case = [], [], []
     nb_expr, nb_exp, nb_case = [], [], []
     undecided = 0
-    for name, kind, s3 in annot.structures(ctx, kinds=("corpus", "moved", "jitter", "reversed", "thin", "thin-base", "synthetic-pair")):
+    for name, kind, s3 in annot.structures(ctx, kinds=("corpus", "moved", "jitter", "reversed", "thin", "thin-base", "base-only", "synthetic-pair")):
         try:
             pairs, bphs, brs, sts, o1, o2, raw = annot.annotate(s3)
         except Exception as e:  # noqa: BLE001
